@@ -3,7 +3,7 @@
 set -e
 F="$1"; OLD="$2"; NEW="$3"; shift 3
 D=$(mktemp -d /tmp/okdmr-try-XXXXXX); trap 'rm -rf "$D"' EXIT
-mkdir -p "$D/okdmr"; cp -r /repo/okdmr/dmrlib "$D/okdmr/dmrlib"
+mkdir -p "$D/okdmr"; cp -r /repo/okdmr/dmrlib "$D/okdmr/dmrlib"; cp -r /repo/okdmr/tests "$D/okdmr/tests"
 python3 - "$D/okdmr/dmrlib/$F" "$OLD" "$NEW" <<'PY'
 import sys
 p,old,new=sys.argv[1:4]; s=open(p).read()
